@@ -225,7 +225,41 @@ func run(c *Case, st *stats) *vf.Failure {
 
 var sess *vf.Session
 
+// genPressureCase: a small table joined with a table several times larger than the pool, whose matching rows come last,
+// in a pool barely above what the indexes pin: temporary pages of the join are evicted and read back while it runs.
+func genPressureCase(t *rapid.T) *Case {
+	c := &Case{}
+	c.Defs = []dbh.TableDef{
+		{Name: "a", Cols: []dbh.Col{{Name: "k", T: "i", Idx: rapid.SampledFrom([]string{dbh.IdxNone, dbh.IdxSkip}).Draw(t, "aidx")}, {Name: "v", T: "i", Idx: dbh.IdxNone}}},
+		{Name: "b", Cols: []dbh.Col{{Name: "k", T: "i", Idx: dbh.IdxNone}, {Name: "v", T: "i", Idx: dbh.IdxNone}, {Name: "s", T: "s", Idx: dbh.IdxNone}}},
+	}
+	nSmall := rapid.IntRange(3, 8).Draw(t, "nsmall")
+	nBig := rapid.SampledFrom([]int{200, 400, 600}).Draw(t, "nbig")
+	var la, lb TableLoad
+	for i := 0; i < nSmall; i++ {
+		la.Rows = append(la.Rows, dbh.Row{dbh.IntV(int32(100 + i)), dbh.IntV(int32(i))})
+	}
+	for i := 0; i < nBig; i++ {
+		lb.Rows = append(lb.Rows, dbh.Row{dbh.IntV(int32(i % 7)), dbh.IntV(int32(1000 + i)), dbh.StrV(strings.Repeat("w", 280))})
+	}
+	for i := 0; i < nSmall; i++ { // the partners come last
+		lb.Rows = append(lb.Rows, dbh.Row{dbh.IntV(int32(100 + i)), dbh.IntV(int32(5000 + i)), dbh.StrV("m")})
+	}
+	c.Loads = []TableLoad{la, lb}
+	nIdx := 0
+	if c.Defs[0].Cols[0].Idx == dbh.IdxSkip {
+		nIdx = 1
+	}
+	c.KB = 4 * (3*nIdx + 10 + rapid.IntRange(0, 12).Draw(t, "spare"))
+	cond := []dbh.JoinCond{{L: dbh.ColRef{T: "a", C: "k"}, R: dbh.ColRef{T: "b", C: "k"}}}
+	c.Queries = []dbh.JoinQuery{{Tables: []string{"a", "b"}, Conds: cond}, {Tables: []string{"b", "a"}, Conds: cond, Cols: []dbh.ColRef{{T: "b", C: "v"}, {T: "a", C: "v"}}}}
+	return c
+}
+
 func genCase(t *rapid.T) *Case {
+	if rapid.IntRange(0, 7).Draw(t, "pressure") == 0 {
+		return genPressureCase(t)
+	}
 	c := &Case{KB: rapid.SampledFrom([]int{400, 1000}).Draw(t, "kb")}
 	n := rapid.SampledFrom([]int{2, 2, 2, 3}).Draw(t, "ntables")
 	c.Defs = sqlgen.JoinTables(t, n)
@@ -257,7 +291,7 @@ func genCase(t *rapid.T) *Case {
 	return c
 }
 
-const rule = "Case = (2-3 tables a,b,c with small-domain join keys k/k2 incl. duplicates, missing keys and NULLs, payload and string columns; SQL-created (skip-list index on every column) or catalog-created with index kinds none/skip list; 0-60 rows each; per table a statistics state: none, stale-low (computed when 1-3 rows were loaded), fresh, stale-high (computed while 30/120 extra rows existed that are then deleted); 1-4 queries: a JOIN b ON x=y [WHERE filters] or comma joins with equality conditions in WHERE (2 tables, 3-table chain and star), 0-2 conjunctive filters, * or 1-4 qualified select columns). Every query is planned and run 3x under each statistics phase and once through ExecuteSQLRetValues; the plan's join algorithm is recorded as a class. Oracle: naive nested-loop evaluation over the model rows (multiset, column order). Non-trivial = model answer non-empty and smaller than the cross product."
+const rule = "Case = (2-3 tables a,b,c with small-domain join keys k/k2 incl. duplicates, missing keys and NULLs, payload and string columns; SQL-created (skip-list index on every column) or catalog-created with index kinds none/skip list; 0-60 rows each; per table a statistics state: none, stale-low (computed when 1-3 rows were loaded), fresh, stale-high (computed while 30/120 extra rows existed that are then deleted); 1-4 queries: a JOIN b ON x=y [WHERE filters] or comma joins with equality conditions in WHERE (2 tables, 3-table chain and star), 0-2 conjunctive filters, * or 1-4 qualified select columns). One case in eight instead joins a 3-8 row table with a 200-600 row table of wide rows whose partners come last, in a pool barely above the pinned frames (buffer pressure while the join runs). Every query is planned and run 3x under each statistics phase and once through ExecuteSQLRetValues; the plan's join algorithm is recorded as a class. Oracle: naive nested-loop evaluation over the model rows (multiset, column order). Non-trivial = model answer non-empty and smaller than the cross product."
 
 var assumptions = []string{
 	"equality join conditions between integer key columns with qualified names; B-tree/hash index kinds are excluded (not supported on the front end)",
